@@ -51,6 +51,8 @@ type corpusFile struct {
 
 type corpus struct {
 	all, small, large []corpusFile
+	clean             []corpusFile            // small well-formed files on which the pinned CLI ends normally (corpus/clean.json)
+	cleanNames        map[string]bool
 	eof               []corpusFile            // e_*: one tiny end-of-input truncation per lexer state, drawn rarely
 	deep              []corpusFile            // x_deep_*: deeply nested / very long chains
 	vsplit            []vsplitItem            // files whose parse depends on the version (corpus/vsplit.json)
@@ -107,6 +109,34 @@ func (c *corpus) loadVsplit(dir string) {
 	}
 }
 
+// loadClean narrows the list of well-formed files to those on which the pinned
+// command-line program is known to end normally (corpus/clean.json, computed by
+// `verif-check cliclean`).
+func (c *corpus) loadClean(dir string) {
+	raw, err := os.ReadFile(filepath.Join(dir, "clean.json"))
+	if err != nil {
+		return
+	}
+	var names []string
+	if json.Unmarshal(raw, &names) != nil || len(names) < 20 {
+		return
+	}
+	okName := map[string]bool{}
+	for _, n := range names {
+		okName[n] = true
+	}
+	var keep []corpusFile
+	for _, f := range c.clean {
+		if okName[f.name] {
+			keep = append(keep, f)
+		}
+	}
+	if len(keep) >= 20 {
+		c.clean = keep
+	}
+	c.cleanNames = okName
+}
+
 func loadCorpus(dir string) (*corpus, error) {
 	names, err := filepath.Glob(filepath.Join(dir, "*.php"))
 	if err != nil {
@@ -132,6 +162,9 @@ func loadCorpus(dir string) (*corpus, error) {
 		}
 		if len(b) <= 2048 {
 			c.small = append(c.small, f)
+			if !f.bad && !strings.HasPrefix(base, "x_") {
+				c.clean = append(c.clean, f)
+			}
 		} else {
 			c.large = append(c.large, f)
 		}
@@ -156,6 +189,7 @@ func loadCorpus(dir string) (*corpus, error) {
 		return nil, os.ErrNotExist
 	}
 	c.loadVsplit(dir)
+	c.loadClean(dir)
 	return c, nil
 }
 
@@ -215,6 +249,47 @@ func (c *corpus) inputT(r *rng, pLarge int, theme string) scn.Input {
 	return in
 }
 
+// inputClean draws a small well-formed file, at most with another line
+// terminator or keyword case: the program under simulation (which stops on the
+// first file whose parse yields no tree) then gets through all of its files.
+func (c *corpus) inputClean(r *rng, maxLen int) scn.Input {
+	f := c.clean[r.n(len(c.clean))]
+	for k := 0; k < 8 && len(f.src) > maxLen; k++ {
+		f = c.clean[r.n(len(c.clean))]
+	}
+	in := scn.Input{Name: f.name, Src: append([]byte(nil), f.src...), Callback: true}
+	switch r.n(10) {
+	case 0:
+		in.Src = bytes.ReplaceAll(in.Src, []byte("\n"), []byte("\r\n"))
+		in.Name += "[crlf]"
+	case 1:
+		in.Src = kwCase(r, in.Src)
+		in.Name += "[kwcase]"
+	}
+	return in
+}
+
+// bigClean composes a large well-formed input (60-120 kB): the body of a
+// well-formed file that is PHP code throughout, repeated.
+func (c *corpus) bigClean(r *rng) scn.Input {
+	var cands []corpusFile
+	for _, f := range c.all {
+		if !f.bad && (c.cleanNames == nil || c.cleanNames[f.name]) && !strings.HasPrefix(f.name, "x_") && !strings.HasPrefix(f.name, "e_") && len(f.src) >= 1200 && bytes.HasPrefix(f.src, []byte("<?php")) && !bytes.Contains(f.src, []byte("?>")) && !bytes.Contains(f.src, []byte("__halt_compiler")) && !bytes.Contains(f.src, []byte("<<<")) && !bytes.Contains(f.src, []byte("namespace")) {
+			cands = append(cands, f)
+		}
+	}
+	if len(cands) == 0 {
+		return c.input(r, 100)
+	}
+	f := cands[r.n(len(cands))]
+	body := f.src[5:]
+	src := []byte("<?php")
+	for want := 60000 + r.n(60000); len(src) < want; {
+		src = append(append(src, body...), '\n')
+	}
+	return scn.Input{Name: f.name + "[repeated]", Src: src, Callback: true}
+}
+
 var fatalTails = []string{"\nclass {", "\ninterface {", "\n$a = function (", "\n}}}", "\nabstract final", "\ntrait T extends U { } class {"}
 
 var c11Ops = []string{"print", "dump", "dumpT", "dumpP", "dumpTP", "traverse", "resolve", "resolve", "print", "printP", "null"}
@@ -271,7 +346,7 @@ func estSteps(inputs []scn.Input, tasks []scn.Task) int64 {
 // call sites): runs then draw a clock speed and injected clock jumps.
 var clockUsed = false
 
-var clockTicks = []int64{0, 0, 1, 100, 10000, 1000000, 50000000}
+var clockTicks = []int64{0, 0, 1, 100, 10000, 1000000}
 var clockJumpBy = []int64{1e6, 1e9, 60e9, 3600e9}
 
 // clock draws the per-run clock speed and jump faults (nothing, and no draw from
@@ -346,22 +421,44 @@ func genC11CLI(c *corpus, r *rng, seed uint64) *scn.Scenario {
 		theme = c.themeNames[r.n(len(c.themeNames))]
 		s.Theme = theme
 	}
+	// swarm: in half of the runs every file is well-formed, so that the program
+	// gets through all of them (the pinned program stops at the first file whose
+	// parse yields no tree, and little can be compared then)
+	clean := r.chance(50) && len(c.clean) > 0
+	// swarm (rare, heavy): very many tiny files behind one large one - more
+	// results in flight than any fixed-size table, ring or channel of the
+	// program was sized for, and one slow file overtaken by all the others
+	many := len(c.clean) > 0 && ((deep && r.chance(6)) || (!deep && r.chance(1)))
+	if many {
+		nf, clean, split, theme = 1030+r.n(400), true, false, ""
+		s.Theme = "many-files"
+	}
 	for i := 0; i < nf; i++ {
 		var in scn.Input
-		if i > 0 && r.chance(10) {
+		switch {
+		case many && i == 0:
+			in = c.bigClean(r) // the first file in walk order is a large well-formed one
+		case many:
+			in = c.inputClean(r, 120)
+		case i > 0 && r.chance(10):
 			in = s.Inputs[r.n(i)] // the same content under another name
 			in.Src = append([]byte(nil), in.Src...)
-		} else {
+		case clean:
+			in = c.inputClean(r, 2048)
+		default:
 			in = c.inputT(r, pLarge, theme)
 		}
 		in.Version, in.Callback = "", true
 		dir := ""
 		if split {
 			dir = "d" + string(rune('0'+r.n(2))) + "/"
-		} else if r.chance(25) {
+		} else if r.chance(25) && !many {
 			dir = "sub/"
 		}
 		in.Path = dir + "f" + string(rune('a'+i/10)) + string(rune('0'+i%10)) + ".php"
+		if nf > 250 {
+			in.Path = "f" + string(rune('0'+i/1000)) + string(rune('0'+i/100%10)) + string(rune('0'+i/10%10)) + string(rune('0'+i%10)) + ".php"
+		}
 		s.Inputs = append(s.Inputs, in)
 	}
 	if r.chance(25) {
@@ -369,9 +466,14 @@ func genC11CLI(c *corpus, r *rng, seed uint64) *scn.Scenario {
 		// *.php), sorted before and after the files it does process
 		for k := 1 + r.n(2); k > 0; k-- {
 			name := []string{"aa_notes.txt", "zz_readme.md", "zz_data.json", "sub/zz_more.txt", "Makefile"}[r.n(5)]
+			if split {
+				// the program is given the directories d0 and d1: the entry goes
+				// into one that exists
+				name = s.Inputs[r.n(len(s.Inputs))].Path[:3] + strings.TrimPrefix(name, "sub/")
+			}
 			dup := false
 			for _, in := range s.Inputs {
-				dup = dup || in.Path == name || (split && !strings.Contains(name, "/"))
+				dup = dup || in.Path == name
 			}
 			if dup {
 				continue
@@ -391,6 +493,9 @@ func genC11CLI(c *corpus, r *rng, seed uint64) *scn.Scenario {
 		sort.Strings(s.CLIPaths)
 	}
 	s.CLIFlags = append([]string(nil), cliFlagSets[r.n(len(cliFlagSets))]...)
+	if many && len(s.CLIFlags) == 0 {
+		s.CLIFlags = []string{"-p"} // something to observe for every file
+	}
 	if v := cliVersions[r.n(len(cliVersions))]; v != "" {
 		s.CLIFlags = append(s.CLIFlags, "-phpver", v)
 	}
@@ -416,6 +521,10 @@ func genC11CLI(c *corpus, r *rng, seed uint64) *scn.Scenario {
 	s.Workers = r.pick([]int{1, 2, 2, 3, 4, 4, 8})
 	if deep {
 		s.Workers = r.pick([]int{2, 4, 8, 12, 16})
+	}
+	if many {
+		s.Workers = r.pick([]int{4, 6, 8, 8})
+		s.FSFaults = nil
 	}
 	var est int64 = 2000
 	for _, in := range s.Inputs {
